@@ -501,7 +501,10 @@ def c01(ctx):
     # an instance needs one substitution for all occurrences of a metavariable: repeated metavariables too
     rule = ctx.rule
     engine_family(ctx, "c02", {"status", "where", "converse"}, n_quick=250, n_thorough=8000, golden=False)
-    ctx.rule = rule + " A second batch uses generator mode c02 (repeated metavariables with identical, almost identical and different fillers)."
+    # "wherever it occurs" includes code that an earlier change of the same patch produced: chains, mostly through the binary
+    engine_family(ctx, "c09", {"status", "where"}, n_quick=150, n_thorough=4000, golden=False, cli_n=(80, 1500))
+    ctx.rule = rule + (" A second batch uses generator mode c02 (repeated metavariables with identical, almost identical and different "
+                       "fillers), a third one mode c09 (chains of changes in which a later change matches only what an earlier one produced).")
 
 @prop("C02")
 def c02(ctx):
@@ -2133,6 +2136,23 @@ def c19(ctx):
             if code == 0 or "p.patch" not in e or want not in e or cl.digest(root) != before:
                 ctx.violation(f"CLI on a rejected patch: exit {code}, stderr {e.strip()[:300]!r}; expected non-zero exit, {want} on stderr, nothing rewritten",
                               {"input": {"patch": c["patch"], "files": {"a.go": "package a\n\nfunc f() { foo(1) }\n"}}})
+            # the position is a position in that patch file, wherever the file comes on the command line: after another
+            # patch (its offsets in the shared file set no longer start at 1) and in a -P list
+            with open(os.path.join(root, "ok.patch"), "w") as f:
+                f.write("# a valid patch loaded first\n@@\nvar x expression\n@@\n-zzzNever(x)\n+zzzNever2(x)\n")
+            with open(os.path.join(root, "list.txt"), "w") as f:
+                f.write("ok.patch\np.patch\n")
+            before2 = cl.digest(root)
+            for args in (["-p", "ok.patch", "-p", "p.patch", "."], ["-P", "list.txt", "."]):
+                code, out, err = cl.gopatch(ctx.gopatch, root, args)
+                e = err.decode("utf-8", "replace")
+                ctx.evaluations += 1
+                ctx.count("cli_rejected_after_another_patch")
+                if code == 0 or want not in e or cl.digest(root) != before2 or "ok.patch:" in e:
+                    ctx.violation(f"CLI on a rejected patch given after a valid one ({' '.join(args)}): exit {code}, stderr {e.strip()[:300]!r}; "
+                                  f"expected non-zero exit, {want} on stderr, nothing rewritten",
+                                  {"input": {"patch": c["patch"], "args": args, "files": {"ok.patch": open(os.path.join(root, "ok.patch")).read(),
+                                                                                          "a.go": "package a\n\nfunc f() { foo(1) }\n"}}})
             shutil.rmtree(root, ignore_errors=True)
 
 # --- C13 -------------------------------------------------------------------
